@@ -5,6 +5,9 @@ import (
 	"os"
 	"path/filepath"
 	"testing"
+	"time"
+
+	wt "github.com/hnakamur/whispertool"
 
 	"pgregory.net/rapid"
 )
@@ -53,11 +56,55 @@ func runC04(c C04Case, ev *Evid) (fs []Finding) {
 	if f := check("empty file"); len(f) > 0 {
 		return f
 	}
+	// wall-clock mode (now = 0, the documented mock point whispertool.Now): the clock ticks one second
+	// per reading; the shape must be the contract's shape at ONE of the instants handed out - a fetch
+	// that mixes two readings matches neither.
+	wallClock := func(state string) []Finding {
+		for _, w := range c.Windows {
+			var reads []int64
+			saved := wt.Now
+			wt.Now = func() time.Time {
+				v := c.Now + int64(len(reads))
+				reads = append(reads, v)
+				return time.Unix(v, 0)
+			}
+			r := fetchWT(db, w.ID, w.From, w.Until, 0)
+			wt.Now = saved
+			if len(reads) == 0 {
+				reads = []int64{c.Now}
+			}
+			var first []Finding
+			ok := false
+			for _, v := range reads {
+				f := compareFetch("C04", fmt.Sprintf("%s: wall-clock fetch(id=%d from=%d until=%d) with the clock ticking from %d (%d readings) layout %s", state, w.ID, w.From, w.Until, c.Now, len(reads), c.L), r, c.L.Shape(w.ID, w.From, w.Until, v), nil)
+				if len(f) == 0 {
+					ok = true
+					break
+				}
+				if first == nil {
+					first = f
+				}
+			}
+			if !ok {
+				for i := range first {
+					first[i].Key = "wall-clock-" + first[i].Key
+				}
+				return first
+			}
+		}
+		return nil
+	}
+	if f := wallClock("empty file"); len(f) > 0 {
+		return f
+	}
 	for _, a := range c.WriteOrder {
 		if err, pm := updateWT(db, a, c.Now, 1.5, c.Now); err != nil || pm != "" {
 			return []Finding{{Property: "C04", Key: "setup-update", Detail: fmt.Sprintf("update archive %d at now failed: %v %s", a, err, pm)}}
 		}
 		if f := check(fmt.Sprintf("after writing archive %d", a)); len(f) > 0 {
+			return f
+		}
+		if f := wallClock(fmt.Sprintf("after writing archive %d", a)); len(f) > 0 {
 			return f
 		}
 	}
@@ -111,7 +158,7 @@ func runC04(c C04Case, ev *Evid) (fs []Finding) {
 func TestC04(t *testing.T) {
 	RunProperty(t, Property[C04Case]{
 		ID: "C04",
-		Rule: "rapid-generated (layout, clock, 6 windows incl. from=0, from>until, degenerate, sub-step, straddling now / a retention edge, ids -2..k+1 and 'best') checked against the contract computed in exact arithmetic, on the empty file and again after each archive of a generated write order has been written (so each window is seen with its archive never written, with only other archives written, and written). Non-trivial: some window straddles now or a retention edge, is degenerate/sub-step, must fail, uses 'best' within +-1 of a retention, or some archive stays never written. Distinct = hash of the case.",
+		Rule: "rapid-generated (layout, clock, 6 windows incl. from=0, from>until, degenerate, sub-step, straddling now / a retention edge, ids -2..k+1 and 'best') checked against the contract computed in exact arithmetic, on the empty file and again after each archive of a generated write order has been written; every window is also fetched in wall-clock mode (now = 0) with whispertool.Now mocked to tick one second per reading, where the shape must be the contract's at one of the instants handed out (so each window is seen with its archive never written, with only other archives written, and written). Non-trivial: some window straddles now or a retention edge, is degenerate/sub-step, must fail, uses 'best' within +-1 of a retention, or some archive stays never written. Distinct = hash of the case.",
 		Assumptions: []string{"zone Z7 clocks (now > max retention + coarsest step; below 2^32 - 2 coarse steps)"},
 		Gen: func(t *rapid.T) C04Case {
 			o := defaultLayoutOpts()
